@@ -66,6 +66,7 @@ type MCConfig struct {
 	// F02). When set, the offset / position / text fields of P and S events are masked on both
 	// sides before traces are compared, and every event where they differ is counted under F02.
 	StalePS string
+	LR      bool // the grammars are left-recursive: generate with the LR runtime, model with LR semantics
 }
 
 type mcCase struct {
@@ -116,7 +117,11 @@ func (c *Ctx) ModelCheck(cfg *MCConfig) {
 }
 
 func (c *Ctx) mcChunk(cfg *MCConfig, gs []*gast.Grammar, base int, rng *rand.Rand) {
-	bt := c.BuildUnits(gs, cfg.FlagSets, false, nil)
+	var isLR func(int) bool
+	if cfg.LR {
+		isLR = func(int) bool { return true }
+	}
+	bt := c.BuildUnits(gs, cfg.FlagSets, false, isLR)
 	defer bt.Close()
 	// inputs per grammar
 	inputs := make([][][]byte, len(gs))
@@ -180,7 +185,7 @@ func (c *Ctx) mcChunk(cfg *MCConfig, gs []*gast.Grammar, base int, rng *rand.Ran
 	parallel(len(keys), 16, func(i int) {
 		cs := keyCase[keys[i]]
 		mres[i] = ref.Run(cs.u.G, cs.in, ref.Opts{Entry: cs.entry, File: cs.os.File, AllowInvalid: cs.os.AllowInvalid,
-			NoRecover: cs.os.NoRecover, MaxExpr: cs.os.MaxExpr, MaxEvents: 4000, StepCap: stepCap})
+			NoRecover: cs.os.NoRecover, MaxExpr: cs.os.MaxExpr, MaxEvents: 4000, StepCap: stepCap, LR: cfg.LR})
 	})
 	for i, k := range keys {
 		models[k] = mres[i]
